@@ -250,7 +250,7 @@ func pickUsable(h *gen.Hist, r *core.Rand) *model.Table {
 
 func checkC03(c *core.Ctx) []core.Floor {
 	c.Level = "fault_enumeration"
-	c.Rule = "seeded prefix histories followed by one multi-row INSERT/UPDATE/DELETE (2-14 row operations; a third of the INSERTs move the table's root in mid-batch; one history in twenty places the root-moving record exactly where the statement's log bytes reach 2^9 ... 2^17, on fresh tables and on tables about to split their internal root; one in a hundred makes the INSERT that splits the internal root the 64th ... 1024th RECORD of the statement); a crash image is taken immediately before EVERY write and fsync the statement issues on the log file, in two cuts (log as written / log as of the last fsync). Each image is recovered in a fresh process; the state must equal pre-state + first j row operations for some j; recovery is repeated; then 3-8 further statements are checked against the model continued from that j-state. Independently of the hooks, one history in forty (eight in the thorough tier) is re-run under strace once per write / fsync call it makes on the log file - every statement of the history, not only the armed one - with SIGKILL delivered on entry to that call; what is left must be a prefix state of the statement that was in flight, and 3-5 further statements must behave. Distinct = image; non-trivial = recovery of the image replayed at least one log record."
+	c.Rule = "seeded prefix histories followed by one multi-row INSERT/UPDATE/DELETE (2-14 row operations; a third of the INSERTs move the table's root in mid-batch; one history in twenty places the root-moving record exactly where the statement's log bytes reach 2^9 ... 2^17, on fresh tables and on tables about to split their internal root; one in a hundred makes the INSERT that splits the internal root the 64th ... 1024th RECORD of the statement); a crash image is taken immediately before EVERY write and fsync the statement issues on the log file, in two cuts (log as written / log as of the last fsync). Each image is recovered in a fresh process; the state must equal pre-state + first j row operations for some j; recovery is repeated; then 3-8 further statements are checked against the model continued from that j-state. Independently of the hooks, one history in forty (thirty in the thorough tier) is re-run under strace once per write / fsync call it makes on the log file - every statement of the history, not only the armed one - with SIGKILL delivered on entry to that call; what is left must be a prefix state of the statement that was in flight, and 3-5 further statements must behave. Distinct = image; non-trivial = recovery of the image replayed at least one log record."
 	c.Assume = []string{"process-death crash model; the fsync cut applies to the log only", "the data file is untouched while a statement appends to the log (timer off: a flush cannot interleave, which is C13's claim)"}
 	drv := mustDriver(c, false)
 	straceOK = straceWorks(c, drv)
@@ -393,7 +393,7 @@ func runArmedHist(c *core.Ctx, drv string, ah *armedHist) {
 	nHook := len(jobs)
 	every, maxKills := 40, 120
 	if !core.Quick(c) {
-		every, maxKills = 8, 400
+		every, maxKills = 30, 400
 	}
 	if straceOK && ah.idx%every == 0 {
 		// crash points at system-call level, independent of the hooks: every
